@@ -474,6 +474,8 @@ class StmtMixin:
                 post.top = t
             return post
         post = havocked(st)
+        for nm_, v_ in bound.items():
+            post.ghost[f"arg:{short}.{nm_}"] = v_          # ghost: the arguments of the (last) call of this callee
         rty = c2.get("returns", "none")
         if rty == "none":
             res = NONE
